@@ -595,6 +595,15 @@ class Evaluator(object):
         except (KeyError, IndexError, TypeError):
             raise GraphError('subscript %r of %r' % (i, a))
 
+    def op_dictget(self, d, k, default=None):
+        d = self.ev(d)
+        k = self.ev(k)
+        if not isinstance(d, dict):
+            raise NotEvaluable('get on %r' % (d,))
+        if k in d:
+            return d[k]
+        return None if default is None else self.ev(default)
+
     def op_iter(self, a):
         return self.ev(a)
 
